@@ -112,6 +112,14 @@ pub fn write_fasta(path: &str, records: &[Vec<u8>]) {
         data.push(b'\n');
     }
     std::fs::write(path, data).expect("write fasta");
+    side_cars(path);
+}
+
+/// files that tools of the trade leave next to a sequence file (samtools faidx / bgzip indexes), describing another
+/// version of it and not older than it: nothing a run computes may come from them
+pub fn side_cars(path: &str) {
+    let _ = std::fs::write(format!("{path}.fai"), b"r0\t17\t4\t17\t18\nzz\t5\t30\t5\t6\n");
+    let _ = std::fs::write(format!("{path}.gzi"), [1u8, 0, 0, 0, 0, 0, 0, 0, 16, 0, 0, 0, 0, 0, 0, 0, 16, 0, 0, 0, 0, 0, 0, 0]);
 }
 
 fn viol(ctx: &mut Ctx, key: &str, size: usize, desc: String, argv: Vec<String>) {
